@@ -526,6 +526,47 @@ where
             }
         }
     }
+    // Reuse after a LATE failure: the same text with its end damaged (most of a structure has been read when the
+    // frame turns out to be bad), then the intact text on the same decoder.
+    if oneshot.is_ok() && bytes.len() >= 2 {
+        for (what, damaged) in [("cut_short", bytes[..bytes.len() - 1].to_vec()), ("bad_tail", { let mut b = bytes[..bytes.len() - 1].to_vec(); b.extend_from_slice(b",@"); b })] {
+            let mut data = BytesMut::from(&with_len_frame(&damaged)[..]);
+            data.extend_from_slice(&framed);
+            let r = catch_unwind(AssertUnwindSafe(|| {
+                let mut d = WithLenRecognizerDecoder::new(T::make_recognizer());
+                let first_was_error = d.decode(&mut data).is_err();
+                let second = match d.decode(&mut data) {
+                    Ok(Some(v)) => Ok(Some(v)),
+                    Ok(None) => d.decode_eof(&mut data),
+                    Err(e) => Err(e),
+                };
+                (first_was_error, second)
+            }));
+            ctx.count("reuse_checks_late_failure", 1);
+            match r {
+                Err(p) => ctx.violate("C09.no_panic", "reuse_late:WithLenRecognizerDecoder", format!("[{label}] text=`{}` ({what}) panic: {}", show(text, 120), show(&panic_message(p), 200))),
+                Ok((first_err, second)) => {
+                    if !first_err {
+                        continue;
+                    }
+                    ctx.count("reuse_after_late_error", 1);
+                    let cls = match (&second, &oneshot) {
+                        (Ok(Some(v)), Ok(e)) => if eq(v, e) { None } else { Some("value_differs") },
+                        (Ok(None), Ok(_)) => Some("no_value_where_oneshot_ok"),
+                        (Err(_), Ok(_)) => Some("err_where_oneshot_ok"),
+                        _ => None,
+                    };
+                    if let Some(c) = cls {
+                        ctx.violate(
+                            "C09.reuse",
+                            &format!("WithLenRecognizerDecoder:{c}:after_late_error"),
+                            format!("[{label}] text=`{}`: after the same text with a damaged end ({what}) had failed on this decoder, the intact text gives {}, alone it gives {}", show(text, 120), match &second { Ok(Some(v)) => show_dbg(v, 120), Ok(None) => "no value".into(), Err(e) => format!("error {}", show(&e.to_string(), 120)) }, match &oneshot { Ok(v) => show_dbg(v, 120), Err(e) => format!("error {}", show(e, 80)) }),
+                        );
+                    }
+                }
+            }
+        }
+    }
     let res = match &oneshot {
         Ok(v) => format!("ok {}", show_dbg(v, 120)),
         Err(e) => format!("err {}", show(e, 80)),
